@@ -113,6 +113,6 @@ Section Book.
     match type of H with context [option_map fst ?t] => destruct t as [[d1 m1]|] eqn:Er end;
       [|discriminate].
     cbn [option_map fst] in H. injection H as H. subst d1.
-    apply (resolve_all_NoDup _ _ _ _ Hl Er).
+    apply (resolve_all_NoDup _ _ (d0, []) (d, m1) Hl Er).
   Qed.
 End Book.
